@@ -33,13 +33,34 @@ def check(tier: str, seed: int) -> int:
     for v in d["violated"]:
         run.violation(f"model|{v}", v, {})
     cases = d["printed"]
+    for c in cases:
+        c["dirs"] = DIRS[tier]
+    if tier == "thorough":
+        # the chdir-between-hops histories (generated for MaxHops <= 2 only) belong to the thorough tier as well
+        q = "Imports_quick.cfg"
+
+        def produce_q():
+            res = tlc.must_ok(tlc.run("Imports", q, workers=1, extra=("-coverage", "1"), timeout=7200, heap="8g"), "Imports")
+            return {"printed": res.printed, "generated": res.generated, "distinct": res.distinct, "violated": res.violated,
+                    "coverage": res.coverage}
+        dq = tlc.cached(f"imports-{q}-{tlc.spec_digest('Imports')}", produce_q)
+        run.states += dq["distinct"]
+        run.transitions += dq["generated"]
+        run.coverage.setdefault("tlc_runs", []).append({"run": f"Imports/{q} (chdir histories)", "distinct_states": dq["distinct"],
+                                                        "states_generated": dq["generated"], "cases": len(dq["printed"])})
+        moved = [c for c in dq["printed"] if any(h.get("at", c["cwd"]) != c["cwd"] for h in c["chain"])]
+        for c in moved:
+            c["dirs"] = DIRS["quick"]
+        run.coverage["chdir_histories"] = len(moved)
+    else:
+        moved = []
     if tier == "thorough" and len(cases) > 150000:
         import random
         random.Random(seed).shuffle(cases)
         cases = cases[:150000]
+    cases = cases + moved
     for i, c in enumerate(cases):
         c["id"] = i + 1
-        c["dirs"] = DIRS[tier]
         c["names"] = NAMES
     obs = pmap("harness.impl", "import_case", cases, chunk=150)
     tlc.WORK.mkdir(exist_ok=True)
